@@ -36,6 +36,35 @@ func (w *World) staleFrom(v ssa.Value, at ssa.Instruction, start ssa.Instruction
 				}
 			}
 		case *ssa.UnOp:
+			// a field of a struct variable that lives outside the loop: this iteration must have stored into that field
+			// (or the whole variable) on every path to the load; what a helper handed the variable's address may or may
+			// not write does not count
+			if fa, ok := x.X.(*ssa.FieldAddr); ok {
+				if al, isAl := fa.X.(*ssa.Alloc); isAl && al.Parent() == head.Parent() && al.Block() != head && al.Block().Dominates(head) {
+					barrier := map[ssa.Instruction]bool{}
+					for _, r := range *al.Referrers() {
+						switch u := r.(type) {
+						case *ssa.Store:
+							if u.Addr == ssa.Value(al) {
+								barrier[u] = true
+							}
+						case *ssa.FieldAddr:
+							if u.Field != fa.Field {
+								continue
+							}
+							for _, rr := range *u.Referrers() {
+								if st, isSt := rr.(*ssa.Store); isSt && st.Addr == ssa.Value(u) {
+									barrier[st] = true
+								}
+							}
+						}
+					}
+					if ReachableAvoiding(start, barrier)(x) {
+						return "the field " + fieldName(fa.X.Type(), fa.Field) + " of the variable " + al.Comment + ", declared outside the loop, can still hold the previous request's value"
+					}
+					return ""
+				}
+			}
 			if al, ok := x.X.(*ssa.Alloc); ok {
 				// a variable outside the loop: some store of this iteration must precede the load on every path
 				if al.Parent() == head.Parent() && al.Block() != head && al.Block().Dominates(head) {
